@@ -4,7 +4,7 @@ import "strings"
 
 func init() {
 	register("C06", runC06, propMeta{
-		Explanation: "Decides, for every interleaving of pool requests, the ownership argument behind request isolation: (P1) getGengine returns only the head of a free list that is known non-empty, read and popped (list = list[1:]) in one critical section of the list's lock while the exclusive getEngineLock is held, and the free lists are touched only by construction, getGengine and putGengineLocked; wrappers are allocated only by NewGenginePool; (P2, template A10 over all 24 pool execute methods) after a successful acquire the deferred function is registered before anything else runs or returns, deletes exactly the keys this request injected (same data map / same names that went into prepare) from the wrapper's own data context, and only then puts the same wrapper back, once; getKeys returns every key, clearInjected and DataContext.Del delete each; (P3) NewGenginePool gives every tag in [0,max) its own NewRuleBuilder(NewDataContext()) and prepare* bind gw.rulebuilder = gp.rbSlice[gw.tag] and inject only into that context; (P4) every engine method starts with a fresh result map (C11-M1) written only by addResult; (P5) each pool method runs the engine call on gw.gengine with gw.rulebuilder of the acquired wrapper, after the release was deferred, with no pool lock held, and returns the error of that call and the result map read from the same engine after the call; every RuleEntity.Execute in the engine receives the Dc of the function's own rule builder. (P6) every goroutine an execute method starts is joined before the method returns, so nothing of a request runs on after the pool has cleared the instance and handed it on. (P7) the store of a rule's local variables is made afresh in RuleEntity.Execute for each execution and nowhere else, so nothing a rule computed from one request's data and kept in a local is there for a later or concurrent request. Not decided: data the host itself shares between its requests through its own pointers. gp.rbSlice, its elements and the Dc of a rule builder are stored by the constructors only (instances keep their builder and context). (P8) the injected table is written by Add, PluginLoader and Del only and, inside the interpreter, those are called by the construction of a data context only. A request method makes one acquiring call and calls no other request method of the pool (one-acquire). (P9) outside the compile step nothing writes into a node of a compiled rule: the rules are one object for all instances. freeGengines, additionGengines and rbSlice are each a slice made for it (lists-own-their-memory).",
+		Explanation: "Decides, for every interleaving of pool requests, the ownership argument behind request isolation: (P1) getGengine returns only the head of a free list that is known non-empty, read and popped (list = list[1:]) in one critical section of the list's lock while the exclusive getEngineLock is held, and the free lists are touched only by construction, getGengine and putGengineLocked; wrappers are allocated only by NewGenginePool; (P2, template A10 over all 24 pool execute methods) after a successful acquire the deferred function is registered before anything else runs or returns, deletes exactly the keys this request injected (same data map / same names that went into prepare) from the wrapper's own data context, and only then puts the same wrapper back, once; getKeys returns every key, clearInjected and DataContext.Del delete each; (P3) NewGenginePool gives every tag in [0,max) its own NewRuleBuilder(NewDataContext()) and prepare* bind gw.rulebuilder = gp.rbSlice[gw.tag] and inject only into that context; (P4) every engine method starts with a fresh result map (C11-M1) written only by addResult; (P5) each pool method runs the engine call on gw.gengine with gw.rulebuilder of the acquired wrapper, after the release was deferred, with no pool lock held, and returns the error of that call and the result map read from the same engine after the call; every RuleEntity.Execute in the engine receives the Dc of the function's own rule builder. (P6) every goroutine an execute method starts is joined before the method returns, so nothing of a request runs on after the pool has cleared the instance and handed it on. (P7) the store of a rule's local variables is made afresh in RuleEntity.Execute for each execution and nowhere else, so nothing a rule computed from one request's data and kept in a local is there for a later or concurrent request. Not decided: data the host itself shares between its requests through its own pointers. gp.rbSlice, its elements and the Dc of a rule builder are stored by the constructors only (instances keep their builder and context). (P8) the injected table is written by Add, PluginLoader and Del only and, inside the interpreter, those are called by the construction of a data context only. A request method makes one acquiring call and calls no other request method of the pool (one-acquire). (P9) outside the compile step nothing writes into a node of a compiled rule: the rules are one object for all instances. freeGengines, additionGengines and rbSlice are each a slice made for it (lists-own-their-memory). (P10) a conc statement returns only after the join of all its branches: nothing of a request still runs on the instance when its call has returned.",
 		Assumptions: []string{"sync.Mutex / RWMutex contracts", "the host does not retain and share the objects it injects"},
 		Trusted:     commonTrusted,
 	})
@@ -57,4 +57,8 @@ func runC06(c *Ctx) {
 	c.only = func(key string) bool { return strings.Contains(key, "#ast-") }
 	c.ruleU2("P9-nothing-kept-on-the-shared-rules")
 	c.only = nil
+	// "once a call has returned" nothing of the request still runs on the instance: a conc block returns
+	// after the join of all its branches (C18-J1), or a branch left behind writes into the data of the next
+	// request served by that instance
+	c.armConcJoin("P10-request-complete-when-it-returns")
 }
